@@ -408,8 +408,9 @@ class Frame:
 
 
 class Outcome:
-    def __init__(self, kind, value, pc, msg="", trace=None):
+    def __init__(self, kind, value, pc, msg="", trace=None, idents=None):
         self.kind, self.value, self.pc, self.msg, self.trace = kind, value, pc, msg, trace or []
+        self.idents = idents or {}
     def __repr__(self): return "Outcome(%s, %r, %s)" % (self.kind, self.value, self.msg)
 
 
@@ -469,9 +470,10 @@ class Engine:
             try:
                 args = make_args()
                 v = self.call(entry, args)
-                outcomes.append(Outcome("return", v, list(self.pc), trace=list(self.trace)))
+                outcomes.append(Outcome("return", v, list(self.pc), trace=list(self.trace), idents=dict(self.lazy_ident)))
+                outcomes[-1].args = args
             except PathAbort as e:
-                outcomes.append(Outcome(e.kind, None, list(self.pc), e.msg, trace=list(self.trace)))
+                outcomes.append(Outcome(e.kind, None, list(self.pc), e.msg, trace=list(self.trace), idents=dict(self.lazy_ident)))
             self.stats["paths"] += 1
             if self.stats["paths"] > max_paths:
                 raise Unsupported("more than %d paths" % max_paths)
@@ -730,6 +732,8 @@ class Engine:
         """uninterpreted pure function of the arguments; typed by the callee's MIR signature when it is a crate fn"""
         ts = [self.as_u(a) for a in args]
         d = self.P.resolve(name)
+        if not name.startswith("<"):
+            name = "::".join(split_path(re.sub(r"::<[^>]*>$", "", name))[-2:])     # Type::method, module path dropped
         if d is not None and d in self.P.fns:
             self.trace.append(("uf", name, ts))
             return self.typed_result(self.P.fns[d].ret, name, ts)
@@ -737,8 +741,31 @@ class Engine:
         self.trace.append(("uf", name, ts))
         return VOpaque(name, args, f(*ts) if ts else z3.Const("ufc_" + re.sub(r"[^A-Za-z0-9_]", "_", name)[-60:], self.U))
 
+    def enter(self, outcome):
+        """make the lazy identities of a finished path current again (for as_u on its result values)"""
+        self.lazy_ident = dict(outcome.idents)
+        self.pc = list(outcome.pc)
+
+    def uf_good_term(self, name, uargs):
+        sane = re.sub(r"[^A-Za-z0-9_]", "_", name)[-50:]
+        f = z3.Function("ufb_good_" + sane, *([self.U] * len(uargs) + [z3.BoolSort()]))
+        return f(*uargs) if uargs else z3.Bool("ufb_good_" + sane)
+
+    def uf_ident_term(self, name, uargs):
+        sane = re.sub(r"[^A-Za-z0-9_]", "_", name)[-50:]
+        f = z3.Function("ufu_" + sane, *([self.U] * len(uargs) + [self.U]))
+        return f(*uargs) if uargs else z3.Const("ufu_" + sane, self.U)
+
     def as_u(self, v):
         """injective-enough embedding of a value into sort U (for uninterpreted functions)"""
+        if v is None:
+            return z3.Const("k_none", self.U)
+        if isinstance(v, z3.ExprRef):
+            if v.sort() == self.U:
+                return v
+            if z3.is_bool(v):
+                return z3.Function("bool2u", z3.BoolSort(), self.U)(v)
+            return z3.Function("int2u", z3.IntSort(), self.U)(v)
         if isinstance(v, VOpaque):
             if v.t is None:
                 v.t = self.fresh("op_" + re.sub(r"[^A-Za-z0-9_]", "_", v.tag)[-30:], "u")
@@ -1016,9 +1043,11 @@ class Engine:
                 raise Unsupported("promoted const " + raw)
             return self.run_fn(fn, [])
         m = re.match(r"^(.*)::(MAX|MIN)$", raw)
-        if m and last_seg(m.group(1)) in INT_TYPES:
-            ty = last_seg(m.group(1))
-            return VInt(rng(ty)[1] if m.group(2) == "MAX" else rng(ty)[0], ty)
+        if m:
+            mm = re.search(r"(?:^|::|<impl )(u8|u16|u32|u64|u128|usize|i8|i16|i32|i64|i128|isize)>?$", m.group(1))
+            if mm:
+                ty = mm.group(1)
+                return VInt(rng(ty)[1] if m.group(2) == "MAX" else rng(ty)[0], ty)
         # unit-like enum variant / struct used as a constant, fn items, ZSTs
         d = self.P.resolve(raw)
         if d is not None:
